@@ -131,5 +131,11 @@ Example c02_example :
   z_closereqs (fst r) = [(5, 4)] /\ z_status (fst r) = SClosedOk /\ z_resumes (fst r) = 2 /\
   let r2 := rrun cfg_keep (rinit PNone []) [EApi (Write 1 [(1,11,3)]); EApi Flush; ELinkDown false; EDetect; ERedial;
                                            ELinkDown false; EResume RCut; EApi (Write 1 [(2,22,1)])] in
-  z_status (fst r2) = SClosedErr /\ z_closedev (fst r2) = [true] /\ snd r2 = [0; 0; 0; 0; 0; 0; 0; 1].
+  z_status (fst r2) = SClosedErr /\ z_closedev (fst r2) = [true] /\ snd r2 = [0; 0; 0; 0; 0; 0; 0; 1] /\
+  (* the transport dies while Close waits for the ack of chunk 1: the stream resumes, chunk 1 is
+     retransmitted and acknowledged, and the Close in progress then completes with the right totals *)
+  let r3 := rrun cfg_keep (rinit PNone []) [EApi (Write 1 [(1,11,3)]); EApi Flush; EApi Close; ELinkDown false; EDetect; ERedial;
+                                           EResume ROk; EResend 1; EApi (Results [(1,1)]); ECloseEnd] in
+  z_status (fst r3) = SClosedOk /\ z_closereqs (fst r3) = [(1, 1)] /\ z_closedev (fst r3) = [false] /\
+  map (fun e => (fst (fst e), snd (fst e))) (z_ledger (fst r3)) = [(0,1); (1,1)] /\ stream_of the_sid (z_sent (fst r3)) = [].
 Proof. vm_compute. repeat split. Qed.
